@@ -535,11 +535,22 @@ static void run_case(size_t idx) {
 int main(int argc, char **argv) {
 	char *buf = NULL; size_t cap = 0; ssize_t r; size_t start = 0; long budget = 0, crashes = 0;
 	if (argc > 1) mode = !strcmp(argv[1], "ghi") ? M_GHI : !strcmp(argv[1], "glo") ? M_GLO : M_HEAP;
-	while ((r = getline(&buf, &cap, stdin)) > 0) {
-		if (buf[r - 1] == '\n') buf[r - 1] = 0;
-		if (!buf[0]) continue;
-		lines = realloc(lines, (nlines + 1) * sizeof(char*));
-		lines[nlines++] = strdup(buf);
+	/* all cases in ONE block (keeps the parent small: every fork copies its page tables) */
+	{
+		size_t len = 0, nl_cap = 0; char *p, *e;
+		cap = 1 << 22; buf = malloc(cap);
+		while ((r = read(0, buf + len, cap - len - 1)) > 0) {
+			len += (size_t)r;
+			if (cap - len < 4096) { cap *= 2; buf = realloc(buf, cap); if (!buf) return 3; }
+		}
+		buf[len] = 0;
+		for (p = buf; p < buf + len; p = e + 1) {
+			e = strchr(p, '\n'); if (!e) e = buf + len;
+			*e = 0;
+			if (!*p) continue;
+			if (nlines == nl_cap) { nl_cap = nl_cap ? nl_cap * 2 : 1 << 16; lines = realloc(lines, nl_cap * sizeof(char*)); if (!lines) return 3; }
+			lines[nlines++] = p;
+		}
 	}
 	shm = mmap(NULL, sizeof(shm_t), PROT_READ | PROT_WRITE, MAP_SHARED | MAP_ANONYMOUS, -1, 0);
 	if (shm == MAP_FAILED) return 3;
